@@ -1,12 +1,26 @@
 #!/usr/bin/env python3
 """Mutation validation of the C02 monitor (timing path only).
 usage: mutate.py [names...]   (needs the scratch worktree /tmp/wt-c02 at HEAD of /repo and
-/tmp/c02root/known_findings.json = /verif/known_findings.json + proposed entries)
+/tmp/c02root/known_findings.json = a copy of /verif/known_findings.json)
 Each break is applied alone, the worker is rebuilt against the worktree and the quick tier is run;
 the monitor must exit 1 with at least one key that is not a listed finding."""
 import subprocess, sys, os, json, re, shutil, time
 WT = '/tmp/wt-c02'
+G = """\tif wf.OutstandingVectorMemAccess > 0 ||\n\t\twf.OutstandingScalarMemAccess > 0 {\n\t\treturn false, false\n\t}\n"""
 MUTS = {
+ 'endpgm-ignores-outstanding-scalar-loads': ('amd/timing/cu/scheduler.go', G,
+   '\tif wf.OutstandingVectorMemAccess > 0 {\n\t\treturn false, false\n\t}\n'),
+ 'endpgm-ignores-all-outstanding-memory': ('amd/timing/cu/scheduler.go', G, ''),
+ 'endpgm-waits-only-for-pure-scalar-loads': ('amd/timing/cu/scheduler.go', G,
+   '\tif wf.OutstandingScalarMemAccess > wf.OutstandingVectorMemAccess {\n\t\treturn false, false\n\t}\n'),
+ 'endpgm-tolerates-one-outstanding-scalar-access': ('amd/timing/cu/scheduler.go', G,
+   '\tif wf.OutstandingVectorMemAccess > 0 ||\n\t\twf.OutstandingScalarMemAccess > 1 {\n\t\treturn false, false\n\t}\n'),
+ 'stores-not-counted-as-outstanding': [('amd/timing/cu/vectormemoryunit.go',
+   '\twave.OutstandingVectorMemAccess++\n\twave.OutstandingScalarMemAccess++\n\n\tfor i, t := range transactions {\n\t\tu.cu.InFlightVectorMemAccess = append(u.cu.InFlightVectorMemAccess, t)\n\t\tif i != len(transactions)-1 {\n\t\t\tt.Write.CanWaitForCoalesce = true',
+   '\tfor i, t := range transactions {\n\t\tu.cu.InFlightVectorMemAccess = append(u.cu.InFlightVectorMemAccess, t)\n\t\tif i != len(transactions)-1 {\n\t\t\tt.Write.CanWaitForCoalesce = true'),
+  ('amd/timing/cu/computeunit.go',
+   '\tif !info.Write.CanWaitForCoalesce {\n\t\twf.OutstandingVectorMemAccess--\n\t\tif info.Inst.FormatType == insts.FLAT {\n\t\t\twf.OutstandingScalarMemAccess--\n\t\t}\n',
+   '\tif !info.Write.CanWaitForCoalesce {\n')],
  'coalescer-straddle-second-line-not-requested': ('amd/timing/cu/defaultcoalescer.go',
    '\t\t\tc.findOrCreateReadReq(&reqs, addr+uint64(4*j))', '\t\t\tc.findOrCreateReadReq(&reqs, addr)'),
  'coalescer-store-dword-order-swapped': ('amd/timing/cu/defaultcoalescer.go',
@@ -43,12 +57,17 @@ def main():
     known = {e['key'] for e in json.load(open('/tmp/c02root/known_findings.json')) if e['property'] == 'C02'}
     results = []
     for n in names:
-        path, old, new = MUTS[n]
+        edits = MUTS[n] if isinstance(MUTS[n], list) else [MUTS[n]]
+        path = edits[0][0]
         sh('git checkout -- .', cwd=WT)
-        s = open(os.path.join(WT, path)).read()
-        if s.count(old) != 1:
-            print(n, 'PATTERN NOT FOUND/AMBIGUOUS', s.count(old)); continue
-        open(os.path.join(WT, path), 'w').write(s.replace(old, new))
+        bad = False
+        for (pth, old, new) in edits:
+            s = open(os.path.join(WT, pth)).read()
+            if s.count(old) != 1:
+                print(n, 'PATTERN NOT FOUND/AMBIGUOUS', pth, s.count(old)); bad = True; break
+            open(os.path.join(WT, pth), 'w').write(s.replace(old, new))
+        if bad:
+            continue
         b = sh('VERIF_REPO=%s /verif/bin/vbuild w_c02' % WT)
         if b.returncode != 0:
             print(n, 'BUILD FAILED', b.stdout[-500:], b.stderr[-500:]); continue
